@@ -74,6 +74,7 @@ func checkC02(c *core.Ctx, r *core.Report) {
 		"(9) the record-level pass of filterRecordsFromSearchQuery, which is where a negated term is inverted, is forced to run for a negated match filter (it is otherwise skipped when every column was searched through its dictionary); " +
 		"(10) REWRITE — the query-tree simplifier replaces an AND node by one operand only where the other operand is known to be match-all, and an OR node by an operand only where that operand itself is known to be match-all; " +
 		"(11) BLOOMTWIN — every piece of a string value that ingest adds to the block bloom in its original spelling is also added lower-cased when the value has an upper-case letter (the bloom is probed with the lower-cased literal); " +
+		"(13) FLOATVIEW — wherever the float view of a typed literal (DtypeEnclosure) is filled next to its tag, it is computed from the member the tag selects and through no sign-changing conversion; " +
 		"(12) NEGDICT — under a negated match filter the record-level pass adds a record as a hit only where the dictionary pass's mark for it (DoesRecordMatch) is known to be absent; " +
 		"(4) the dictionary-encoded block search examines every dictionary word (the scan loops of dechecker.go have no exit other than exhaustion or an error return), since several distinct words can satisfy one filter (case-insensitive match, 5 vs 5.0)."
 	r.NotCovered = "whether literal typing, wildcard/regex translation and case folding are right, AND/OR/NOT composition beyond the join of per-block column sets, agreement of the search clause with the `where` stage (different representation), the 1e-4 tolerance of float equality (treated as an equality atom)"
@@ -81,6 +82,7 @@ func checkC02(c *core.Ctx, r *core.Report) {
 	c02Rewrite(c, r)
 	c02BloomTwin(c, r)
 	c02NegationAndDictionaryPass(c, r)
+	c02FloatView(c, r)
 
 	eq := core.EqualityCalls{"dtu.AlmostEquals": true, "dtypeutils.AlmostEquals": true}
 	isFop := isNamedType(pkgSutils, "FilterOperator")
@@ -879,11 +881,14 @@ func checkC03(c *core.Ctx, r *core.Report) {
 		"(10) PQMRWHOLE — a persistent-query result file is back-filled after a raw search only where a predicate that walks the segment's complete block-summary list found every block enclosed by the query window; " +
 		"(11) OPENRANGE — both bounds of the open segment's recorded time range can move on every flush (a store that is not a first-time initialisation carries the flush's earliest / latest time into the start / end bound); " +
 		"(12) SSTNUMERIC — every string value recorded in the ingest-time segment statistics is first offered to the float parser (as the record-level statistics do), so both sides agree on which strings are numbers; " +
+		"(13) STALEREF — a container that the open segment replaces wholesale at rotation (WipBlock.colWips and the like) is not copied into an object that outlives the call (the ingest-time evaluation of persistent queries would keep reading the previous segment's reset buffers); " +
+		"(14) BLOOMTWIN (shared with C02) — every piece of a string value added to the block bloom in its original spelling is also added lower-cased; " +
 		"(5) RECSTART — the ingest-time matcher of persistent queries reads a column's last record as cbuf[cstartidx:cbufidx]: every per-record start of a column value (initAndBackFillColumn for present columns, the absent-column loop for the others) stores cstartidx = cbufidx before the record's bytes are appended, so the matcher never sees the previous record's value."
 	r.NotCovered = "equality of results across layouts, bloom contents vs probes, persistent-query bitsets vs raw search beyond the record-start clause, agile-tree/rollup contents, parallel-chain merge"
 	eq := core.EqualityCalls{}
 
 	checkRangeFilterTables(c, r)
+	c02BloomTwin(c, r)
 
 	// ---------------------------------------------------------------- (2)
 	checkTimePredicates(c, r, eq, false)
@@ -994,6 +999,7 @@ func checkC03(c *core.Ctx, r *core.Report) {
 	c03LoadEvict(c, r)
 	c03PqmrWhole(c, r)
 	c03OpenRange(c, r)
+	c03StaleRef(c, r)
 	c03SstNumeric(c, r)
 }
 
@@ -1336,6 +1342,61 @@ func checkRangeFilterTables(c *core.Ctx, r *core.Report) {
 					return m <= L
 				}
 				return true
+			}
+			// the call sites hand the block's range and the literal over in those roles: the argument in the
+			// min role comes from a Min_* field of the range entry, the one in the max role from a Max_* field,
+			// the value from neither (three arguments of one type are easily exchanged)
+			{
+				idx := map[string]int{}
+				k := 0
+				for _, fl := range fd.Type.Params.List {
+					for _, n := range fl.Names {
+						idx[n.Name] = k
+						k++
+					}
+					if len(fl.Names) == 0 {
+						k++
+					}
+				}
+				boundOf := func(a ssa.Value) string {
+					for i := 0; i < 4; i++ {
+						if cv, ok := a.(*ssa.Convert); ok {
+							a = cv.X
+						}
+					}
+					if ld, ok := a.(*ssa.UnOp); ok {
+						if fa, ok := ld.X.(*ssa.FieldAddr); ok {
+							if f := core.FieldOfAddr(fa); f != nil {
+								switch {
+								case strings.HasPrefix(f.Name(), "Min_"):
+									return "min"
+								case strings.HasPrefix(f.Name(), "Max_"):
+									return "max"
+								}
+							}
+						}
+					}
+					return ""
+				}
+				nSites := 0
+				for _, caller := range c.RepoFunctions() {
+					for _, ci := range core.CallsIn(caller) {
+						callee := ci.Common().StaticCallee()
+						if callee == nil || (callee != base && callee.Origin() != base) {
+							continue
+						}
+						args := ci.Common().Args
+						if idx[lo] >= len(args) || idx[hi] >= len(args) || idx[v] >= len(args) {
+							continue
+						}
+						nSites++
+						okRoles := boundOf(args[idx[lo]]) == "min" && boundOf(args[idx[hi]]) == "max" && boundOf(args[idx[v]]) == ""
+						r.Check(okRoles, "ORDERTABLE", fmt.Sprintf("%s:call#%d-in-%s-passes(value,min,max)-in-their-roles", name, nSites, shortFn(caller)), c.Pos(ci.Pos()),
+							"the block minimum and maximum are handed over in the min and max roles, the literal as the value",
+							"the range predicate is called with the block's minimum, maximum and the literal in the wrong roles (arguments of one type exchanged): pruning is inverted for some operators and blocks that contain matching events are skipped")
+					}
+				}
+				r.Floor("ORDERTABLE", "call sites of the range predicate "+name, nSites, 1)
 			}
 			for _, op := range sixOps {
 				construct := fmt.Sprintf("%s:range-filter:%s", name, op)
